@@ -9,14 +9,18 @@ PROPS = {
             "quick": [
                 dict(harness="VerifHarness_C12_quick", reach=["resume", "refuse"]),
                 dict(harness="VerifHarness_C12_rerun", reach=["rerun"]),
+                dict(harness="VerifHarness_C12_twice", reach=["resume", "refuse"]),
             ],
             "thorough": [
                 dict(harness="VerifHarness_C12_thorough", reach=["resume", "refuse", "rerun"]),
+                dict(harness="VerifHarness_C12_twice4", reach=["resume", "refuse"]),
             ],
         },
         bounds={
-            "quick": "old file 2..3 statements, edited file 0..3 statements, every partial progress k, statement texts 1 fully symbolic byte each; third attempt in the rerun variant",
-            "thorough": "old file 2..5 statements, edited file 0..5 statements, every partial progress k, statement texts 2 fully symbolic bytes each, third attempt included; assertion queries cross-checked on z3 5.1 and cvc5",
+            "quick": "old file 2..3 statements, edited file 0..3 statements, every partial progress k, statement texts 1 fully symbolic byte each; third attempt in the rerun variant; "
+                     "twice-partial family: 2..3 statements, first stop k1, tail edited, second stop k2 >= k1 in the resumed run, then a fully symbolic third file of 0..3 statements",
+            "thorough": "old file 2..5 statements, edited file 0..5 statements, every partial progress k, statement texts 2 fully symbolic bytes each, third attempt included; twice-partial family with 2..4 statements of 2 bytes; "
+                        "assertion queries cross-checked on z3 5.1 and cvc5",
         },
         assumptions=[
             "SHA-256 is collision free (digest = opaque token of its pre-image)",
@@ -28,7 +32,8 @@ PROPS = {
         claim="For every old file, every partial progress k and every edited file within the bounds, Executor.Execute (the real SSA, "
               "executed symbolically with fully symbolic statement bytes and hash tokens) refuses with HistoryChangedError, executes "
               "nothing and leaves the revision untouched iff the applied prefix changed, otherwise resumes with exactly the new tail, "
-              "and later attempts neither crash nor re-execute. Bounded model checking is the right level: the property quantifies over "
+              "and later attempts neither crash nor re-execute; the same holds when the applied prefix was recorded by two partial runs (the hashes "
+              "written by a resumed run are the ones compared). Bounded model checking is the right level: the property quantifies over "
               "file contents and edit positions, which become solver variables and structural forks.",
         note="Bounded (see evidence.bounds). Trusted: go/ssa lowering, the engine's instruction semantics, z3 (thorough: every unsat "
              "answer re-checked on z3 5.1 and cvc5), SHA-256 modelled as an injective opaque token, the model Dir/File/Driver/revision "
@@ -566,7 +571,7 @@ PROPS["C14"] = dict(
 def _c07_runs(tier):
     runs = []
     for d, cfg in (("mysql", _my), ("postgres", _pg), ("sqlite", _lt)):
-        names = ["atlas_n1", "atlas_t1", "plain", "foreign"]
+        names = ["atlas_n1", "atlas_t1", "atlas_q3", "plain", "foreign"]
         if tier == "thorough":
             names += ["atlas", "atlas_names2"]
         for g in names:
@@ -580,7 +585,8 @@ PROPS["C07"] = dict(
     bounds={
         "quick": "per dialect (MySQL, PostgreSQL, SQLite): a one-table plan (CREATE TABLE with primary key, default, comment, plus CREATE INDEX) whose "
                  "table and column names end in 1 fully symbolic byte (texts concrete), or whose default literal and column comment end in 1 fully "
-                 "symbolic byte (names concrete); formatters: Atlas default; golang-migrate and flyway (plain files); goose and dbmate (own readers); "
+                 "symbolic byte (names concrete), or whose table name ends in 3 and column name in 1 symbolic bytes drawn from {identifier quote, 'a'}; "
+                 "formatters: Atlas default; golang-migrate and flyway (plain files); goose and dbmate (own readers); "
                  "read back with migrate.FileStmts and the dialect driver's ScanStmts",
         "thorough": "same plus names and texts symbolic together (1 byte each) and 2-byte names",
     },
